@@ -185,8 +185,8 @@ impl TickArrayType for TickArray {
                    && (a_to_b ==> curr_offset <= o && (forall|j: int| curr_offset < j <= o && 0 <= j < 88 ==> !self.vinit(j)))
                    && (!a_to_b ==> curr_offset >= o && (forall|j: int| o <= j < curr_offset && 0 <= j < 88 ==> !self.vinit(j))) }),
             decreases (if a_to_b { curr_offset + 1 } else { 88 - curr_offset }),
-//@ inject before /if !a_to_b \{/
-        proof { lemma_slot_range(tick_index as int, self.vstart(), tick_spacing as int, !a_to_b); }
+//@ inject at /^\{/
+        proof { if tick_spacing > 0 && in_range_spec(tick_index as int, self.vstart(), tick_spacing as int, !a_to_b) { lemma_slot_range(tick_index as int, self.vstart(), tick_spacing as int, !a_to_b); } }
 //@ inject before /return Ok\(Some\(/
                 proof { lemma_slot_mul(self.vstart(), curr_offset as int, tick_spacing as int);
                         assert(curr_offset as int * tick_spacing as int <= 88 * 65535) by(nonlinear_arith) requires 0 <= curr_offset < 88, 0 < tick_spacing as int <= 65535;
@@ -322,8 +322,8 @@ impl TickArrayType for DynamicTickArrayLoader {
                    && (a_to_b ==> curr_offset <= o && (forall|j: int| curr_offset < j <= o && 0 <= j < 88 ==> !self.vinit(j)))
                    && (!a_to_b ==> curr_offset >= o && (forall|j: int| o <= j < curr_offset && 0 <= j < 88 ==> !self.vinit(j))) }),
             decreases (if a_to_b { curr_offset + 1 } else { 88 - curr_offset }),
-//@ inject before /if !a_to_b \{/
-        proof { lemma_slot_range(tick_index as int, self.vstart(), tick_spacing as int, !a_to_b); }
+//@ inject at /^\{/
+        proof { if tick_spacing > 0 && in_range_spec(tick_index as int, self.vstart(), tick_spacing as int, !a_to_b) { lemma_slot_range(tick_index as int, self.vstart(), tick_spacing as int, !a_to_b); } }
 //@ inject before /return Ok\(Some\(/
                 proof { lemma_slot_mul(self.vstart(), curr_offset as int, tick_spacing as int);
                         assert(curr_offset as int * tick_spacing as int <= 88 * 65535) by(nonlinear_arith) requires 0 <= curr_offset < 88, 0 < tick_spacing as int <= 65535;
